@@ -174,3 +174,27 @@ Theorem C01_source_mint_burn_keep_supply_within_max :
      Burn_receive total max v g burnable owner sender mintable amt sv = GoSem.Ok (bl, 0, total', max', es, eb) ->
      0 <= amt -> total <= max -> total' <= max' /\ eb = Some (total - total')).
 Proof. exact mint_burn_keep_supply_within_max. Qed.
+
+(* ---- the two places where an ordinary block moves value, proved DIRECTLY about the code: vm.applySend and
+   vm.applyReceive translated whole from /repo's source by go2coq on every run (gen/PureFunds.v). Inputs: the verdicts of
+   GetEmbeddedMethod / ValidateSendBlock, the balance read by enoughFunds, the verdicts of GetAccountBlockByHash /
+   MarkAsReceived; output: the error and the amount handed to SubBalance / AddBalance (None = call not reached).
+   A send debits exactly its amount and only when it is covered; a receive credits exactly the amount of the send it
+   references and only after MarkAsReceived accepted it; a refusal moves nothing. *)
+Theorem C01_source_apply_send_debits : forall gm vs z b amt eff,
+  ZV.gen.PureFunds.applySend gm vs z b 0 amt = GoSem.Ok (0, eff) ->
+  eff = Some amt /\ (z = 0 \/ amt <= b) /\ (gm = Err_constants_ErrNotContractAddress \/ gm = 0 /\ vs = 0).
+Proof. exact apply_send_debits. Qed.
+Theorem C01_source_apply_send_refusal : forall gm vs z b amt e eff,
+  ZV.gen.PureFunds.applySend gm vs z b 0 amt = GoSem.Ok (e, eff) -> e <> 0 -> eff = None.
+Proof. exact apply_send_refusal. Qed.
+Theorem C01_source_apply_send_then_debit : forall gm vs z b amt eff,
+  z <> 0 -> ZV.gen.PureFunds.applySend gm vs z b 0 amt = GoSem.Ok (0, eff) ->
+  ZV.gen.PureFunds.SubBalance amt b 0 0 = GoSem.Ok (Some (b - amt)).
+Proof. exact apply_send_then_debit. Qed.
+Theorem C01_source_apply_receive_credits : forall g m amt eff,
+  ZV.gen.PureFunds.applyReceive g m amt = (0, eff) -> eff = Some amt /\ g = 0 /\ m = 0.
+Proof. exact apply_receive_credits. Qed.
+Theorem C01_source_apply_receive_refusal : forall g m amt e eff,
+  ZV.gen.PureFunds.applyReceive g m amt = (e, eff) -> e <> 0 -> eff = None.
+Proof. exact apply_receive_refusal. Qed.
